@@ -168,7 +168,44 @@ def conect(bonds):
     return None if pairs == exp else f"CONECT records carry {sorted(pairs)}, bonds are {sorted(exp)}"
 
 
+def conect_layout(chains, res_ids, ins, hetero, bonds):
+    """every bond between different residues, or touching a non-water hetero atom, has its CONECT record
+    (bonds inside one standard residue are left to the component dictionary)"""
+    a = make(n=3, coord=[[0, 0, 0], [1.5, 0, 0], [3, 0, 0]], chain_id=chains, res_id=res_ids, ins_code=ins, hetero=hetero,
+             res_name=["CYS", "CYS", "CYS"], atom_name=["SG", "SG", "CB"])
+    a.bonds = struc.BondList(3, np.array(bonds, dtype=int).reshape(-1, 3))
+    f = pdb.PDBFile()
+    f.set_structure(a)
+    pairs = set()
+    for l in f.lines:
+        if l.startswith("CONECT"):
+            c = int(l[6:11])
+            for k in range(11, 31, 5):
+                t = l[k:k + 5].strip()
+                if t:
+                    pairs.add((min(c, int(t)) - 1, max(c, int(t)) - 1))
+    res = lambda i: (chains[i], res_ids[i], ins[i])
+    must = {(min(x, y), max(x, y)) for x, y, t in bonds if res(x) != res(y) or hetero[x] or hetero[y]}
+    may = {(min(x, y), max(x, y)) for x, y, t in bonds}
+    if not must <= pairs:
+        return f"bonds {sorted(must - pairs)} between different residues / hetero atoms have no CONECT record (records: {sorted(pairs)})"
+    if not pairs <= may:
+        return f"CONECT records {sorted(pairs - may)} for bonds that do not exist"
+    return None
+
+
+LAYOUTS = [(["A", "B", "B"], [42, 42, 43], ["", "", ""], [False, False, False]),
+           (["A", "A", "A"], [5, 5, 6], ["", "A", ""], [False, False, False]),
+           (["A", "A", "A"], [5, 5, 5], ["", "", ""], [True, True, False]),
+           (["A", "B", "C"], [1, 1, 1], ["", "", ""], [False, False, False]),
+           (["A", "A", "B"], [7, 7, 7], ["A", "B", "A"], [False, True, False])]
 allb = [(0, 1, 1), (1, 2, 1), (0, 2, 2)]
+for chains, rids, ins, het in LAYOUTS:
+    for r in range(1, 4):
+        for sub in itertools.combinations(allb, r):
+            R.check("CONECT records carry exactly the bonds", "bonds across chains / insertion codes / hetero atoms",
+                    {"chain_id": chains, "res_id": rids, "ins_code": ins, "hetero": het, "bonds": list(sub)},
+                    lambda chains=chains, rids=rids, ins=ins, het=het, sub=sub: conect_layout(chains, rids, ins, het, list(sub)))
 for r in range(0, 4):
     for sub in itertools.combinations(allb, r):
         R.check("CONECT records carry exactly the bonds", f"bonds {len(sub)}", {"bonds": list(sub)}, lambda sub=sub: conect(list(sub)))
